@@ -329,8 +329,18 @@ class _Expander:
                 renames[v] = "%s_h%d" % (v, self.counter)
         return mapping, prologue, renames
 
-    def _instantiate(self, h, call, caller_names, make_result, keep_returns=False):
+    def _instantiate(self, h, call, caller_names, make_result, keep_returns=False, result_name=None):
         mapping, prologue, renames = self._bind(h, call, caller_names)
+        if result_name is not None:
+            # `T = helper(..)` where the helper ends in `return V` (V a local of its own): V simply is T
+            rets = [x for x in _own(h.node, ast.Return)]
+            hb = h.body()
+            if len(rets) == 1 and hb and hb[-1] is rets[0] and isinstance(rets[0].value, ast.Name):
+                v = rets[0].value.id
+                stored = {n.id for n in _own(h.node, ast.Name) if isinstance(n.ctx, ast.Store)}
+                if v in stored and v not in mapping and result_name not in (stored - {v}) and result_name not in mapping \
+                        and result_name not in (set(h.params) | set(h.kwonly)):
+                    renames[v] = result_name
         body = [copy.deepcopy(s) for s in h.body()]
         sub = _SubstNames(mapping, renames)
         body = [sub.visit(s) for s in body]
@@ -486,7 +496,11 @@ class _Expander:
                         def mk(v, targets=targets, s=s):
                             val = v if v is not None else ast.Constant(value=None)
                             return [ast.copy_location(ast.Assign(targets=copy.deepcopy(targets), value=val), s)]
-                        produced = self._instantiate(h, s.value, names, mk)
+                        rn = targets[0].id if len(targets) == 1 and isinstance(targets[0], ast.Name) else None
+                        produced = self._instantiate(h, s.value, names, mk, result_name=rn)
+                        produced = [p_ for p_ in produced if not (isinstance(p_, ast.Assign) and len(p_.targets) == 1
+                                                                   and isinstance(p_.targets[0], ast.Name) and isinstance(p_.value, ast.Name)
+                                                                   and p_.targets[0].id == p_.value.id)]
                         if not _always_returns(h.body()):
                             # falling off the end returns None
                             if _has_return(h.body()):
@@ -608,20 +622,96 @@ def _chain(e):
 
 
 def _mutable_attrs(trees):
-    """attribute names assigned (or deleted / aug-assigned) anywhere outside an __init__, plus the names of
-    properties and methods (reading them runs code)"""
-    out = set()
+    """(stored, computed, classes): attribute names assigned / deleted / aug-assigned anywhere outside an
+    __init__; names of properties and methods (reading them runs code); and per class name its bases, the
+    attributes its __init__ assigns on self and its properties / methods"""
+    stored, computed, classes = {}, set(), {}
+    from .resolve import NAMING_VARS
     for rel, tree in trees.items():
+        for c in ast.walk(tree):
+            if isinstance(c, ast.ClassDef):
+                info = classes.setdefault(c.name, {"bases": [], "plain": set(), "computed": set()})
+                info["bases"] += [ast.unparse(b).split(".")[-1] for b in c.bases]
+                for m in c.body:
+                    if isinstance(m, (ast.FunctionDef, ast.AsyncFunctionDef)):
+                        if m.name == "__init__":
+                            for n in ast.walk(m):
+                                if isinstance(n, ast.Attribute) and isinstance(n.ctx, ast.Store) and \
+                                        isinstance(n.value, ast.Name) and n.value.id == "self":
+                                    info["plain"].add(n.attr)
+                        else:
+                            info["computed"].add(m.name)
+                    elif isinstance(m, ast.Assign):
+                        for t in m.targets:
+                            if isinstance(t, ast.Name):
+                                info["plain"].add(t.id)
+        imported = set()
+        for st in tree.body:
+            if isinstance(st, ast.Import):
+                imported |= {(a.asname or a.name).split(".")[0] for a in st.names}
+            elif isinstance(st, ast.ImportFrom):
+                imported |= {a.asname or a.name for a in st.names}
         for parts, fn in alpha.walk_functions(tree):
             deco = _decorators(fn)
-            if "property" in deco or any(d.endswith(".setter") for d in deco):
-                out.add(fn.name)
+            if "property" in deco or any(d.endswith(".setter") for d in deco) or len(parts) == 2:
+                computed.add(fn.name)
             if fn.name == "__init__":
                 continue
             for n in ast.walk(fn):
                 if isinstance(n, ast.Attribute) and isinstance(n.ctx, (ast.Store, ast.Del)):
-                    out.add(n.attr)
-    return out
+                    if isinstance(n.value, ast.Name) and n.value.id in imported:
+                        continue  # a module global (config.simulated), not an instance attribute
+                    r = n.value
+                    while isinstance(r, (ast.Attribute, ast.Subscript)):
+                        r = r.value
+                    owner = parts[0] if len(parts) == 2 else None
+                    if isinstance(r, ast.Name) and r is n.value:
+                        rc = owner if r.id == "self" else NAMING_VARS.get(r.id)
+                    else:
+                        rc = None
+                    # (class of the receiver if its name tells, class whose method contains the store)
+                    stored.setdefault(n.attr, set()).add((rc, owner))
+    return stored, computed, classes
+
+
+def _family(classes, name):
+    """the class, its ancestors and all descendants (by name)"""
+    fam, todo = set(), [name]
+    while todo:
+        c = todo.pop()
+        if c in fam or c not in classes:
+            continue
+        fam.add(c)
+        todo += classes[c]["bases"]
+    changed = True
+    while changed:
+        changed = False
+        for c, info in classes.items():
+            if c not in fam and any(b in fam for b in info["bases"]):
+                # descendants of the class itself (not of its ancestors) - approximated by one closure
+                fam.add(c)
+                changed = True
+    return fam
+
+
+def _plain_chain(root_cls, attrs, stored, computed, classes):
+    """every hop of the chain reads a plain attribute that nothing assigns outside a constructor"""
+    from .resolve import NAMING_ATTRS
+    cls = root_cls
+    for a in attrs:
+        if cls is not None and cls in classes:
+            fam = _family(classes, cls)
+            # a store through a receiver of this family, or through an unknown receiver inside the family's own code
+            if any((rc in fam) or (rc is None and owner in fam) for rc, owner in stored.get(a, ())):
+                return False
+            if any(a in classes[c]["computed"] for c in fam):
+                return False
+            if not any(a in classes[c]["plain"] for c in fam):
+                return False
+        elif a in computed or a in stored:
+            return False
+        cls = NAMING_ATTRS.get(a)
+    return True
 
 
 def propagate_new_aliases(trees):
@@ -631,7 +721,8 @@ def propagate_new_aliases(trees):
     fref = load_func_ref()
     if fref is None:
         return {}
-    mutable = _mutable_attrs(trees)
+    stored_attrs, computed_attrs, classes = _mutable_attrs(trees)
+    from .resolve import NAMING_VARS
     applied = {}
     for rel, tree in trees.items():
         for parts, fn in alpha.walk_functions(tree):
@@ -647,22 +738,37 @@ def propagate_new_aliases(trees):
                 elif isinstance(n, ast.ExceptHandler) and n.name:
                     stores.setdefault(n.name, []).append(n)
             cands = {}
+            def chain_ok(e):
+                ch = _chain(e)
+                if ch is None:
+                    return False
+                root, attrs = ch
+                root_cls = parts[0] if (root == "self" and len(parts) == 2) else NAMING_VARS.get(root)
+                if not _plain_chain(root_cls, attrs, stored_attrs, computed_attrs, classes):
+                    return False
+                return name_ok(root)
+
+            def name_ok(root):
+                # the root must not be rebound after the binding: at most one binding in the function, or a
+                # parameter that is never assigned
+                if root != "self" and len(stores.get(root, [])) > 1:
+                    return False
+                if root in params and stores.get(root):
+                    return False
+                return True
+
+            def value_ok(e):
+                if isinstance(e, ast.Tuple) and e.elts:
+                    return all(isinstance(x, ast.Constant) or (isinstance(x, ast.Name) and name_ok(x.id)) or chain_ok(x)
+                               for x in e.elts)
+                return chain_ok(e)
+
             for s in _own(fn, ast.Assign):
                 if len(s.targets) == 1 and isinstance(s.targets[0], ast.Name):
                     v = s.targets[0].id
-                    ch = _chain(s.value)
-                    if ch is None or v in known or v in params or len(stores.get(v, [])) != 1:
+                    if v in known or v in params or len(stores.get(v, [])) != 1:
                         continue
-                    root, attrs = ch
-                    if any(a in mutable for a in attrs):
-                        continue
-                    # the root must not be rebound in the function after the binding (loop variables are
-                    # rebound per iteration: the alias must then be bound inside the same loop body, which the
-                    # single-store condition and Python scoping give us only approximately - require that the
-                    # root has at most one binding, or is a parameter never assigned)
-                    if root != "self" and len(stores.get(root, [])) > 1:
-                        continue
-                    if root in params and stores.get(root):
+                    if not value_ok(s.value):
                         continue
                     cands[v] = (s, s.value)
             if not cands:
@@ -747,6 +853,191 @@ def desugar_quantifiers(trees):
         return out
     for tree in trees.values():
         for parts, fn in alpha.walk_functions(tree):
+            fn.body = rewrite(fn.body)
+        ast.fix_missing_locations(tree)
+    return n
+
+
+# --------------------------------------------------------------------------------------------- accumulator loops
+def comprehension_form(trees):
+    """`x = []` directly followed by `for T in IT:` whose body only filters (`if c: continue`, nested `if c:`)
+    and ends in the single statement `x.append(E)` is the comprehension `x = [E for T in IT if ...]`; likewise
+    `x = {}` / `x[K] = V` is a dict comprehension.  The loop variable must not be used after the loop (in a
+    comprehension it does not leak).  One shape for code that builds a filtered list, whichever way it is
+    written."""
+    n = 0
+
+    def pieces(body):
+        """([conditions], final statement) or None"""
+        conds = []
+        while True:
+            body = [b for b in body if not isinstance(b, ast.Pass)]
+            if len(body) == 1 and isinstance(body[0], ast.If) and not body[0].orelse:
+                conds.append(body[0].test)
+                body = body[0].body
+                continue
+            if len(body) >= 2 and isinstance(body[0], ast.If) and not body[0].orelse and len(body[0].body) == 1 \
+                    and isinstance(body[0].body[0], ast.Continue):
+                conds.append(_negate(body[0].test))
+                body = body[1:]
+                continue
+            if len(body) == 1:
+                return conds, body[0]
+            return None
+
+    def names_in(t):
+        return {x.id for x in ast.walk(t) if isinstance(x, ast.Name)}
+
+    def rewrite(stmts, fn):
+        nonlocal n
+        out = []
+        i = 0
+        while i < len(stmts):
+            s = stmts[i]
+            for fld in ("body", "orelse", "finalbody"):
+                b = getattr(s, fld, None)
+                if isinstance(b, list) and b and isinstance(b[0], ast.stmt):
+                    setattr(s, fld, rewrite(b, fn))
+            for h in getattr(s, "handlers", []) or []:
+                h.body = rewrite(h.body, fn)
+            nxt = stmts[i + 1] if i + 1 < len(stmts) else None
+            if (isinstance(s, ast.Assign) and len(s.targets) == 1 and isinstance(s.targets[0], ast.Name)
+                    and isinstance(nxt, ast.For) and not nxt.orelse
+                    and ((isinstance(s.value, ast.List) and not s.value.elts) or (isinstance(s.value, ast.Dict) and not s.value.keys))):
+                x = s.targets[0].id
+                pc = pieces(nxt.body)
+                tnames = names_in(nxt.target)
+                ok = pc is not None and x not in names_in(nxt.iter) and x not in tnames
+                comp = None
+                if ok:
+                    conds, fin = pc
+                    if any(x in names_in(c) for c in conds):
+                        ok = False
+                    elif isinstance(s.value, ast.List) and isinstance(fin, ast.Expr) and isinstance(fin.value, ast.Call) \
+                            and isinstance(fin.value.func, ast.Attribute) and fin.value.func.attr == "append" \
+                            and isinstance(fin.value.func.value, ast.Name) and fin.value.func.value.id == x \
+                            and len(fin.value.args) == 1 and not fin.value.keywords and x not in names_in(fin.value.args[0]):
+                        comp = ast.ListComp(elt=fin.value.args[0], generators=[
+                            ast.comprehension(target=nxt.target, iter=nxt.iter, ifs=conds, is_async=0)])
+                    elif isinstance(s.value, ast.Dict) and isinstance(fin, ast.Assign) and len(fin.targets) == 1 \
+                            and isinstance(fin.targets[0], ast.Subscript) and isinstance(fin.targets[0].value, ast.Name) \
+                            and fin.targets[0].value.id == x and x not in names_in(fin.targets[0].slice) | names_in(fin.value):
+                        comp = ast.DictComp(key=fin.targets[0].slice, value=fin.value, generators=[
+                            ast.comprehension(target=nxt.target, iter=nxt.iter, ifs=conds, is_async=0)])
+                if ok and comp is not None:
+                    # the loop variable must be dead after the loop
+                    later = [y for st in stmts[i + 2:] for y in ast.walk(st) if isinstance(y, ast.Name) and y.id in tnames]
+                    if not later and _enclosing_uses_ok(fn, nxt, tnames):
+                        new = ast.copy_location(ast.Assign(targets=[ast.Name(id=x, ctx=ast.Store())], value=comp), nxt)
+                        ast.fix_missing_locations(new)
+                        out.append(new)
+                        n += 1
+                        i += 2
+                        continue
+            out.append(s)
+            i += 1
+        return out
+
+    for tree in trees.values():
+        for parts, fn in alpha.walk_functions(tree):
+            fn.body = rewrite(fn.body, fn)
+        ast.fix_missing_locations(tree)
+    return n
+
+
+def _negate(test):
+    """the negation of a condition, written without a double negative where there is one"""
+    from .astutil import positive
+    e, flipped = positive(test)
+    if flipped:
+        return e
+    if isinstance(test, ast.Compare) and len(test.ops) == 1:
+        inv = {ast.Eq: ast.NotEq, ast.In: ast.NotIn, ast.Is: ast.IsNot}.get(type(test.ops[0]))
+        if inv is not None:
+            return ast.copy_location(ast.Compare(left=test.left, ops=[inv()], comparators=list(test.comparators)), test)
+    if isinstance(test, ast.BoolOp) and isinstance(test.op, ast.Or):
+        return ast.copy_location(ast.BoolOp(op=ast.And(), values=[_negate(v) for v in test.values]), test)
+    return ast.copy_location(ast.UnaryOp(op=ast.Not(), operand=test), test)
+
+
+def _enclosing_uses_ok(fn, loop, tnames):
+    """the loop's target names are bound nowhere else in the function and read only inside the loop"""
+    inside = {id(y) for y in ast.walk(loop)}
+    for y in _own(fn, ast.Name):
+        if y.id in tnames and id(y) not in inside:
+            return False
+    return True
+
+
+# --------------------------------------------------------------------------------------------- single-use temporaries
+def inline_new_temporaries(trees):
+    """`x = E` directly followed by the only use of x (`return x`, `yield x`, `t = x`, or x as the first
+    operand evaluated in the next simple statement) is that statement with E in place of x - for locals
+    that are new relative to the reference naming.  Nothing can happen between the two statements."""
+    ref = alpha.load_ref()
+    fref = load_func_ref()
+    if fref is None:
+        return 0
+    n = 0
+
+    def first_evaluated(stmt, name):
+        """is the (single) load of `name` evaluated before anything that could have an effect?"""
+        v = None
+        if isinstance(stmt, ast.Return):
+            v = stmt.value
+        elif isinstance(stmt, ast.Expr):
+            v = stmt.value.value if isinstance(stmt.value, (ast.Yield, ast.YieldFrom, ast.Await)) else stmt.value
+        elif isinstance(stmt, ast.Assign):
+            v = stmt.value
+        if v is None:
+            return False
+        if isinstance(v, ast.Name):
+            return v.id == name
+        if isinstance(v, ast.Call):
+            parts = [v.func] + list(v.args) + [k.value for k in v.keywords]
+            for p_ in parts:
+                if isinstance(p_, ast.Name) and p_.id == name:
+                    return True
+                if not _stable(p_) and not (isinstance(p_, ast.Attribute) and _stable(p_.value)):
+                    return False
+        return False
+
+    for rel, tree in trees.items():
+        for parts, fn in alpha.walk_functions(tree):
+            k = alpha.function_key(rel, parts)
+            if k not in fref:
+                continue
+            known = set((ref.get(k) or {}).values())
+            params = alpha.params_of(fn)
+            counts = {}
+            for y in _own(fn, ast.Name):
+                d = counts.setdefault(y.id, [0, 0])
+                d[0 if isinstance(y.ctx, ast.Store) else 1] += 1
+
+            def rewrite(stmts):
+                nonlocal n
+                out = []
+                i = 0
+                while i < len(stmts):
+                    s = stmts[i]
+                    for fld in ("body", "orelse", "finalbody"):
+                        b = getattr(s, fld, None)
+                        if isinstance(b, list) and b and isinstance(b[0], ast.stmt):
+                            setattr(s, fld, rewrite(b))
+                    for h in getattr(s, "handlers", []) or []:
+                        h.body = rewrite(h.body)
+                    nxt = stmts[i + 1] if i + 1 < len(stmts) else None
+                    if (isinstance(s, ast.Assign) and len(s.targets) == 1 and isinstance(s.targets[0], ast.Name) and nxt is not None):
+                        x = s.targets[0].id
+                        if x not in known and x not in params and counts.get(x) == [1, 1] and first_evaluated(nxt, x):
+                            new = _SubstNames({x: s.value}, {}).visit(nxt)
+                            out.append(new)
+                            n += 1
+                            i += 2
+                            continue
+                    out.append(s)
+                    i += 1
+                return out
             fn.body = rewrite(fn.body)
         ast.fix_missing_locations(tree)
     return n
